@@ -45,6 +45,27 @@ type unserialized interface {
 	unserializedChildren([]string, schema.Node) ([]unserialized, error)
 }
 
+// The values of the key leaves of a list entry, in the order of the key
+// statement (a key leaf that is not there counts as the empty value).
+func entryKeys(path []string, node unserialized, le schema.ListEntry) string {
+	kids, err := node.unserializedChildren(path, le)
+	if err != nil {
+		return ""
+	}
+	vals := make([]string, len(le.Keys()))
+	for i, key := range le.Keys() {
+		for _, ch := range kids {
+			if ch.name() != key {
+				continue
+			}
+			if v, err := ch.values(); err == nil && len(v) == 1 {
+				vals[i] = v[0]
+			}
+		}
+	}
+	return strings.Join(vals, "\x00")
+}
+
 func getChildName(path []string, node unserialized, sn schema.Node) (string, error) {
 
 	name := sn.Name()
@@ -192,14 +213,16 @@ func convertToDataNode(path []string, name string, node unserialized, sn schema.
 			if err != nil {
 				return nil, err
 			}
-			if _, isEntry := csn.(schema.ListEntry); isEntry {
-				// The entries of a list are told apart by their key
-				if entries[childName] {
+			if le, isEntry := csn.(schema.ListEntry); isEntry {
+				// The entries of a list are told apart by their keys, all
+				// of them (an entry is named by the first one only)
+				keys := entryKeys(path, ch, le)
+				if entries[keys] {
 					err := mgmterror.NewTooManyElementsError(childName)
 					err.Path = pathutil.Pathstr(path)
 					return nil, err
 				}
-				entries[childName] = true
+				entries[keys] = true
 			}
 
 			// Construct child path correctly for list case
